@@ -27,6 +27,10 @@ package sema
 //@   env MemoryMeteringError
 //@   ensures[C40] iff(result, (ghostof(targetType, "hasmin") == 0 || big(expression.Value) >= ghostof(targetType, "min")) && (ghostof(targetType, "hasmax") == 0 || big(expression.Value) <= ghostof(targetType, "max")))
 
+// The ranges themselves (the ghost attributes above stand for what MinInt/MaxInt return): every sized integer type is
+// declared with its two's-complement / unsigned range, Int has no bound, UInt only the lower bound 0 - read from the
+// real initialisers of sema/type.go.
+//@ theorem[C40] T_integer_type_ranges() = big(Int8Type.minInt) == -pow2(7) && big(Int8Type.maxInt) == pow2(7) - 1 && big(UInt8Type.minInt) == 0 && big(UInt8Type.maxInt) == pow2(8) - 1 && big(Word8Type.minInt) == 0 && big(Word8Type.maxInt) == pow2(8) - 1 && big(Int16Type.minInt) == -pow2(15) && big(Int16Type.maxInt) == pow2(15) - 1 && big(UInt16Type.minInt) == 0 && big(UInt16Type.maxInt) == pow2(16) - 1 && big(Word16Type.minInt) == 0 && big(Word16Type.maxInt) == pow2(16) - 1 && big(Int32Type.minInt) == -pow2(31) && big(Int32Type.maxInt) == pow2(31) - 1 && big(UInt32Type.minInt) == 0 && big(UInt32Type.maxInt) == pow2(32) - 1 && big(Word32Type.minInt) == 0 && big(Word32Type.maxInt) == pow2(32) - 1 && big(Int64Type.minInt) == -pow2(63) && big(Int64Type.maxInt) == pow2(63) - 1 && big(UInt64Type.minInt) == 0 && big(UInt64Type.maxInt) == pow2(64) - 1 && big(Word64Type.minInt) == 0 && big(Word64Type.maxInt) == pow2(64) - 1 && big(Int128Type.minInt) == -pow2(127) && big(Int128Type.maxInt) == pow2(127) - 1 && big(UInt128Type.minInt) == 0 && big(UInt128Type.maxInt) == pow2(128) - 1 && big(Word128Type.minInt) == 0 && big(Word128Type.maxInt) == pow2(128) - 1 && big(Int256Type.minInt) == -pow2(255) && big(Int256Type.maxInt) == pow2(255) - 1 && big(UInt256Type.minInt) == 0 && big(UInt256Type.maxInt) == pow2(256) - 1 && big(Word256Type.minInt) == 0 && big(Word256Type.maxInt) == pow2(256) - 1 && IntType.minInt == nil && IntType.maxInt == nil && big(UIntType.minInt) == 0 && UIntType.maxInt == nil
 // A fixed-point literal +-(integer . fractional digits) with `Scale` fractional digits denotes
 // +-(integer + fractional / 10^Scale). It is rejected exactly when it has more fractional digits than the type's
 // scale S or its value is outside the type's range [MIN, MAX] / 10^S (the ranges below are the property's: the raw
